@@ -64,9 +64,86 @@ func b01(b bool) string {
 func (p *prop) Gen(r *vh.Rng, tier string, n int) []vh.Case {
 	var cases []vh.Case
 	for k := 0; k < n; k++ {
-		cases = append(cases, genCase(r.Fork()))
+		cr := r.Fork()
+		if cr.Chance(1, 3) {
+			cases = append(cases, genCacheCase(cr))
+		} else {
+			cases = append(cases, genCase(cr))
+		}
 	}
 	return cases
+}
+
+// genCacheCase: a cached set field whose fragments are snapshotted right before the restart
+// (operation count 0 at close) — through one import of more than MaxOpN bits, or through the
+// MaxOpN hook followed by ordinary writes — and TopN (all rows, and explicit ids) before and after.
+func genCacheCase(r *vh.Rng) vh.Case {
+	var ls []string
+	ls = append(ls, fmt.Sprintf("cidx i0 0 %s", b01(r.Bool())))
+	nf := r.Pick(1, 1, 2)
+	rows := []int{0, 1, 2, 99, 100, 150}
+	cols := []uint64{0, 1, 2, 3, sw, sw + 1, 2*sw + 5}
+	for j := 0; j < nf; j++ {
+		typ := r.PickS("set", "set", "default")
+		ct, cs := "-", 0
+		if typ == "set" {
+			ct = r.PickS("ranked", "ranked", "lru", "-")
+			cs = r.Pick(0, 0, 100)
+		}
+		ls = append(ls, fmt.Sprintf("cfld i0 f%d %s %s %d 0 0 - 0 0", j, typ, ct, cs))
+	}
+	fld := func() string { return fmt.Sprintf("f%d", r.Intn(nf)) }
+	small := func(f string, onlyCols []uint64) {
+		c := onlyCols[r.Intn(len(onlyCols))]
+		row := rows[r.Intn(len(rows))]
+		switch r.Intn(6) {
+		case 0:
+			ls = append(ls, fmt.Sprintf("data clear i0 %s %d %d", f, row, c))
+		case 1:
+			ls = append(ls, fmt.Sprintf("data imp i0 %s %d:%d,%d:%d", f, row, c, rows[r.Intn(len(rows))], onlyCols[r.Intn(len(onlyCols))]))
+		default:
+			ls = append(ls, fmt.Sprintf("data bit i0 %s %d %d", f, row, c))
+		}
+	}
+	for k := r.Range(2, 8); k > 0; k-- {
+		small(fld(), cols)
+	}
+	mode := r.Intn(4)
+	for j := 0; j < nf; j++ {
+		f := fmt.Sprintf("f%d", j)
+		switch mode {
+		case 0: // one import of more than MaxOpN bits is the last write of its shard
+			ls = append(ls, fmt.Sprintf("data bigimp i0 %s %d %d %d", f, r.Pick(1, 7, 150), r.Intn(3), 10001+r.Intn(40)))
+			vh.Count("cache-case-bigimport")
+		case 1, 2: // MaxOpN hook, then ordinary writes to the existing fragments
+			ls = append(ls, fmt.Sprintf("maxopn i0 %s %d", f, r.Pick(0, 0, 1)))
+			for k := r.Range(1, 3); k > 0; k-- {
+				small(f, cols)
+			}
+			vh.Count("cache-case-maxopn")
+		default:
+			vh.Count("cache-case-plain")
+		}
+	}
+	reads := func() {
+		for j := 0; j < nf; j++ {
+			// distinct ids (TopN counts a row once per occurrence in ids=[...]; not this property's concern)
+			pm := r.Perm(len(rows))
+			ls = append(ls, fmt.Sprintf("topn i0 f%d", j), fmt.Sprintf("topnids i0 f%d %d,%d,%d", j, rows[pm[0]], rows[pm[1]], r.Pick(7, 44)))
+		}
+	}
+	reads()
+	ls = append(ls, "reopen")
+	reads()
+	if r.Chance(1, 2) {
+		// a second restart without (or with few) writes: the cache file of the first one is reused
+		for k := r.Range(0, 2); k > 0; k-- {
+			small(fld(), cols)
+		}
+		ls = append(ls, "reopen")
+		reads()
+	}
+	return vh.Case{Lines: ls, Nontrivial: true}
 }
 
 func genCase(r *vh.Rng) vh.Case {
@@ -490,6 +567,55 @@ func (st *state) exec(l string) string {
 		return strconv.FormatInt(v, 10)
 	case ws[0] == "data" && len(ws) >= 3:
 		return st.data(ws[1:])
+	case ws[0] == "maxopn" && len(ws) == 4:
+		if f, err := api.Field(ctx, ws[1], ws[2]); err != nil || f == nil {
+			return "err:not-found"
+		}
+		pilosa.VerifC08SetMaxOpN(st.s.Server.Holder(), ws[1], ws[2], int(atoi(ws[3])))
+		return "ok"
+	case (ws[0] == "topn" && len(ws) == 3) || (ws[0] == "topnids" && len(ws) == 4):
+		if f, err := api.Field(ctx, ws[1], ws[2]); err != nil || f == nil {
+			return "err:not-found"
+		}
+		_ = api.RecalculateCaches(ctx)
+		q := fmt.Sprintf("TopN(%s)", ws[2])
+		if ws[0] == "topnids" {
+			q = fmt.Sprintf("TopN(%s, ids=[%s])", ws[2], ws[3])
+		}
+		resp, err := st.query(ws[1], q)
+		if err != nil {
+			return errClass(err)
+		}
+		ps, ok := resp.Results[0].([]pilosa.Pair)
+		if !ok {
+			return "err:not-pairs"
+		}
+		ps = append([]pilosa.Pair(nil), ps...)
+		sort.Slice(ps, func(i, j int) bool {
+			if ps[i].Count != ps[j].Count {
+				return ps[i].Count > ps[j].Count
+			}
+			return ps[i].ID < ps[j].ID
+		})
+		if len(ps) == 0 {
+			return "-"
+		}
+		var parts []string
+		for _, p := range ps {
+			parts = append(parts, fmt.Sprintf("%d:%d", p.ID, p.Count))
+		}
+		if zs := pilosa.VerifC08OpN(st.s.Server.Holder(), ws[1], ws[2]); len(zs) > 0 {
+			allZero := true
+			for _, z := range zs {
+				if z != 0 {
+					allZero = false
+				}
+			}
+			if allZero {
+				vh.Count("topn-with-opN-zero-everywhere")
+			}
+		}
+		return strings.Join(parts, " ")
 	case ws[0] == "reopen":
 		return st.reopen()
 	}
@@ -541,6 +667,20 @@ func (st *state) data(ws []string) string {
 		index = ws[1]
 		q = fmt.Sprintf("SetColumnAttrs(%s, %s=%s)", ws[2], ws[3], ws[4])
 		note(ws[1], "", "", ws[2])
+	case ws[0] == "bigimp" && len(ws) == 6:
+		row, shard, n := atou(ws[3]), atou(ws[4]), int(atou(ws[5]))
+		rs := make([]uint64, n)
+		cs := make([]uint64, n)
+		for k := 0; k < n; k++ {
+			rs[k] = row
+			cs[k] = shard*sw + 1000 + uint64(k)
+		}
+		note(ws[1], ws[2], ws[3], "")
+		if err := st.s.API.Import(ctx, &pilosa.ImportRequest{Index: ws[1], Field: ws[2], Shard: shard, RowIDs: rs, ColumnIDs: cs}); err != nil {
+			return errClass(err)
+		}
+		vh.Count("big-imports")
+		return "ok"
 	case ws[0] == "imp" && len(ws) == 4:
 		var rs, cs []uint64
 		for _, it := range strings.Split(ws[3], ",") {
